@@ -13,10 +13,15 @@ RULE = ("each logical operation (evaluation, basis functions, knot insertion and
         "reduction, split and join, + - * /, fit_curve, fit_points, default integration) on well-conditioned data (degree <= "
         "3, knot gaps >= 1/16, weights in [1/2, 4]) is executed with Fraction data, with int points where integral, with "
         "Python floats, with numpy.float64 and (evaluation / insertion / elevation / split) with control points of a class "
-        "that only supports point + point and scalar * point; non-trivial = degree >= 1 and an interior knot")
+        "that only supports point + point and scalar * point; rational curves also with int weights and int points on "
+        "Fraction knots (one knot inserted once, split at a new and at an existing knot, elevation); a few curves with 18-20 "
+        "control points (solves beyond 16 unknowns); non-trivial = degree >= 1 and an interior knot")
 
 OPS = ["eval", "basis", "insert", "insert_remove", "elevate", "elevate_reduce", "split", "split_join", "add", "mul",
-       "div", "fit_curve", "fit_points", "integrate", "rational_eval", "rational_insert", "fit_jump", "fit_points_unordered"]
+       "div", "fit_curve", "fit_points", "integrate", "rational_eval", "rational_insert", "fit_jump", "fit_points_unordered",
+       "rational_insert1", "rational_split", "rational_splitknot", "rational_elevate"]
+# operations repeated on LARGE curves (18-20 control points: linear systems beyond 16 unknowns)
+LARGE_OPS = ["insert_remove", "elevate_reduce", "fit_points", "fit_curve", "mul", "split_join"]
 GENERIC = {"eval", "insert", "elevate", "split"}
 
 
@@ -33,9 +38,22 @@ def gen(tier, seed):
                  for _ in range(n)]
             if op in ("add", "mul", "div", "integrate", "fit_points", "fit_points_unordered", "fit_jump"):
                 P = [[pt[0]] for pt in P]
+            W = [F(rnd.randint(2, 16), 4) for _ in range(n)]
+            if op.startswith("rational") and integral:
+                W = [F(rnd.randint(1, 4)) for _ in range(n)]          # int weights too in the int run
             cases.append({"U": fsl(U), "p": p, "kind": v["kind"], "mults": v["mults"], "op": op, "P": pts_json(P),
                           "P2": pts_json([[F(rnd.randint(1, 9))] for _ in range(n)]), "integral": integral,
-                          "W": fsl([F(rnd.randint(2, 16), 4) for _ in range(n)]), "seed": rnd.randint(0, 10 ** 6)})
+                          "W": fsl(W), "seed": rnd.randint(0, 10 ** 6)})
+    for op in (LARGE_OPS if tier != "quick" else rnd.sample(LARGE_OPS, 3)):
+        p = rnd.randint(1, 3)
+        n = rnd.randint(18, 20)
+        nseg = n - p
+        U = [F(0)] * (p + 1) + [F(i, nseg) for i in range(1, nseg)] + [F(1)] * (p + 1)
+        integral = rnd.random() < 0.5
+        P = [[F(rnd.randint(-9, 9)) if integral else F(rnd.randint(-36, 36), rnd.choice((2, 4, 3)))] for _ in range(n)]
+        cases.append({"U": fsl(U), "p": p, "kind": "large", "mults": [1] * (nseg - 1), "op": op, "P": pts_json(P),
+                      "P2": pts_json([[F(rnd.randint(1, 9))] for _ in range(n)]), "integral": integral,
+                      "W": fsl([F(1)] * n), "seed": rnd.randint(0, 10 ** 6)})
     return cases
 
 
@@ -100,8 +118,15 @@ def _run(case, conv, convp, generic=False):
     c = Curve(U, P)
     op = case["op"]
     if op.startswith("rational"):
-        c.weights = [conv(w) for w in nums(case["W"])]
+        intw = convp is int and all(w.denominator == 1 for w in nums(case["W"]))
+        c.weights = [int(w) if intw else conv(w) for w in nums(case["W"])]
         op = op.split("_")[1]
+    if op == "insert1":
+        c.knot_insert(mids[:1])             # one knot, once
+        return c
+    if op == "splitknot":
+        inner = [conv(k) for k in ks[1:-1]]
+        return list(c.split(inner[:1])) if inner else list(c.split(mids[:1]))
     if op == "eval":
         return [c(u) for u in nodes] + [c(tuple(nodes))]
     if op == "basis":
